@@ -18,6 +18,11 @@ pub enum LayoutOp {
         at: u32,
         ws: u8,
     },
+    /// insert a non-ASCII whitespace character (U+0085, U+00A0, U+2003, U+2028, U+3000; index
+    /// `which`) at byte position `at` (mod len+1). Whether such whitespace is ignored is left open
+    /// by the statement; what is required is that the answer does not depend on how the stream
+    /// is delivered.
+    InsertUnicodeWs { at: u32, which: u8 },
     /// flip the case of the letter at position `at` (mod len), if it is one
     FlipCase {
         at: u32,
@@ -65,6 +70,15 @@ pub fn apply_layout(text: &[u8], ops: &[LayoutOp]) -> Vec<u8> {
                 let i = *at as usize % (t.len() + 1);
                 t.insert(i, *ws);
             }
+            LayoutOp::InsertUnicodeWs { at, which } => {
+                // only at a character boundary of what is there (ASCII so far, or after a previous insertion)
+                let mut i = *at as usize % (t.len() + 1);
+                while i < t.len() && (t[i] & 0xc0) == 0x80 {
+                    i += 1;
+                }
+                let ws = UNICODE_WS[*which as usize % UNICODE_WS.len()];
+                t.splice(i..i, ws.bytes());
+            }
             LayoutOp::FlipCase { at } => {
                 if !t.is_empty() {
                     let i = *at as usize % t.len();
@@ -111,6 +125,7 @@ pub fn apply_layout(text: &[u8], ops: &[LayoutOp]) -> Vec<u8> {
 }
 
 const WS: [u8; 4] = [b' ', b'\t', b'\r', b'\n'];
+const UNICODE_WS: [&str; 5] = ["\u{85}", "\u{a0}", "\u{2003}", "\u{2028}", "\u{3000}"];
 
 pub fn gen_layout(rng: &mut Rng, text_len: usize) -> Vec<LayoutOp> {
     let mut ops = Vec::new();
@@ -155,6 +170,14 @@ pub fn gen_layout(rng: &mut Rng, text_len: usize) -> Vec<LayoutOp> {
             }
         }
     }
+    if rng.chance(1, 10) {
+        for _ in 0..rng.range(1, 3) {
+            ops.push(LayoutOp::InsertUnicodeWs {
+                at: rng.below(text_len as u64 + 8) as u32,
+                which: rng.below(5) as u8,
+            });
+        }
+    }
     if rng.chance(1, 4) {
         ops.push(LayoutOp::DropPrefix);
     }
@@ -168,7 +191,12 @@ pub fn gen_layout(rng: &mut Rng, text_len: usize) -> Vec<LayoutOp> {
 pub fn gen_malformed(rng: &mut Rng, data: &[u8]) -> Vec<u8> {
     let hexs = hex::encode(data);
     let mut t = format!("0x{hexs}").into_bytes();
-    match rng.weighted(&[3, 4, 2, 1, 1]) {
+    match rng.weighted(&[3, 4, 2, 1, 1, 1]) {
+        5 => {
+            // a byte-order mark (or another invisible non-whitespace character) in front
+            let mark = ["\u{feff}", "\u{200b}", "\u{2060}", "\u{fffe}"][rng.usize_below(4)];
+            t.splice(0..0, mark.bytes());
+        }
         0 => {
             // odd number of digits
             if rng.coin() || data.is_empty() {
@@ -194,7 +222,24 @@ pub fn gen_malformed(rng: &mut Rng, data: &[u8]) -> Vec<u8> {
                 b"O",
                 b"l",
             ];
-            let b = rng.pick(bad);
+            // ... or a character that is no hex digit but whose code point, cut down to one byte,
+            // is one (U+0130 -> '0', U+0441 -> 'A', U+FF41 -> 'A', U+3042 -> 'B', ...)
+            let lookalike: Vec<u8>;
+            let b: &[u8] = if rng.chance(1, 3) {
+                let low = *rng.pick(b"0123456789abcdefABCDEF") as u32;
+                let c = loop {
+                    let hi = rng.range(1, 0x2ff) as u32;
+                    if let Some(c) = char::from_u32((hi << 8) | low) {
+                        if !c.is_whitespace() && !c.is_ascii() {
+                            break c;
+                        }
+                    }
+                };
+                lookalike = c.to_string().into_bytes();
+                &lookalike
+            } else {
+                bad[rng.usize_below(bad.len())]
+            };
             let at = 2 + rng.usize_below(t.len() - 2 + 1);
             if rng.coin() && at < t.len() {
                 // replace a digit (keeps even count when the replacement is one byte)
@@ -317,6 +362,7 @@ impl HexCase {
         let mut hist = Vec::new();
         rep.fault_free = !iogen::has_hard(&self.enc_r) && !iogen::has_hard(&self.dec_r);
         for p in [
+            "unicode_whitespace_layout",
             "eintr_on_last_read_before_eof",
             "write_split_mid_output",
             "hard_error_before_eof_fired",
@@ -406,6 +452,44 @@ impl HexCase {
         } else {
             if iogen::has_hard(&self.dec_r) {
                 rep.probe("hard_error_not_reached", true);
+            }
+            let open_ws = self.layout.iter().any(|op| matches!(op, LayoutOp::InsertUnicodeWs { .. }));
+            if open_ws && self.malformed.is_none() {
+                // Non-ASCII whitespace: accepting (with the right bytes) and refusing (with none)
+                // are both fine, but the same text must get the same answer however it arrives.
+                // Reference execution: the text as a regular file, no delivery plan.
+                let base_cmd = Cmd {
+                    argv: vec!["hex".into(), "decode".into(), "in.bin".into()],
+                    files: vec![NamedFile { name: "in.bin".into(), data: dec_input.clone() }],
+                    ..Cmd::default()
+                };
+                let b = exec(ctx, dir, &base_cmd)?;
+                eh.write_u64(b.event_hash());
+                rep.procs += 1;
+                rep.probe("unicode_whitespace_layout", true);
+                let accepted_ok = |x: &Outcome| x.status.ok() && x.stdout == self.data;
+                let refused_ok = |x: &Outcome| !x.status.ok() && x.stdout.is_empty();
+                if !(accepted_ok(&b) || refused_ok(&b)) || !(accepted_ok(&o) || refused_ok(&o)) || b.status.ok() != o.status.ok() {
+                    rep.violate(
+                        "C19",
+                        "decode-depends-on-delivery",
+                        "hex decode",
+                        format!(
+                            "text with non-ASCII whitespace ({} bytes): as a plain file status {:?} / {} bytes out, under the delivery plan ({}, {} steps) status {:?} / {} bytes out; layout {:?}",
+                            dec_input.len(),
+                            b.status,
+                            b.stdout.len(),
+                            if self.dec_stdin { "stdin" } else { "file" },
+                            self.dec_r.len(),
+                            o.status,
+                            o.stdout.len(),
+                            self.layout
+                        ),
+                    );
+                }
+                rep.event_hash = eh.finish();
+                rep.history = json!(hist);
+                return Ok(rep);
             }
             match (&self.malformed, spec_decode(&dec_input)) {
                 (None, Some(want)) => {
@@ -659,10 +743,32 @@ impl crate::framework::Plan for HexPlan {
                 2 => rng.range(0, 600),
                 _ => rng.range(0, 4096),
             } as usize;
-            let data = match rng.below(5) {
+            let mut data = match rng.below(5) {
                 0 => vec![*rng.pick(&[0u8, 0xff, 0x0a, 0x20, 0x30, 0x78])].repeat(len),
                 _ => rng.bytes(len),
             };
+            if rng.chance(1, 6) {
+                // content that looks like something: byte-order marks, magic numbers, text
+                // that is itself hex or whitespace, line ends at buffer-size offsets
+                const MAGIC: [&[u8]; 14] = [
+                    b"\xef\xbb\xbf", b"\xfe\xff", b"\xff\xfe", b"\xff\xfe\x00\x00", b"\x1f\x8b", b"0x", b"0X", b"#!", b"\n", b"\r\n", b" ", b"\x00", b"\x7fELF", b"{\"",
+                ];
+                let m = MAGIC[rng.usize_below(MAGIC.len())];
+                match rng.below(3) {
+                    0 => {
+                        data.splice(0..0, m.iter().copied());
+                    }
+                    1 => data.extend_from_slice(m),
+                    _ => {
+                        let at = [1023usize, 1024, 1025, 4095, 4096, 8191, 8192][rng.usize_below(7)];
+                        if data.len() < at + 8 {
+                            data.resize(at + 8, 0x41);
+                        }
+                        data.splice(at..at, m.iter().copied());
+                    }
+                }
+                data.truncate(9000);
+            }
             gen_common(&mut rng, data)
         };
         super::AnyCase::Hex(c)
